@@ -118,6 +118,17 @@ impl World {
                     None => ok,
                 };
             }
+            "FeedRef" => {
+                // the source is lent, not given: what was not offered must still be in it afterwards
+                let via = if e["via"] == "extend_ref" { "extend" } else { "feed_into" };
+                let it: &mut std::vec::IntoIter<Heavy> = &mut **self.src.as_mut().unwrap();
+                let sink = &mut self.sink;
+                let r = ledger::track(|| World::feed(sink, it, via));
+                self.last = match r {
+                    Some(n) => json!({"kind":"count","n":n}),
+                    None => ok,
+                };
+            }
             "Wrap" => {
                 let p: *mut std::vec::IntoIter<Heavy> = &mut **self.src.as_mut().unwrap();
                 // the borrow is kept alive by discipline: the source is not touched while wrapped
